@@ -229,8 +229,8 @@ SPECS["C15"] = node_spec(
 
 SPECS["C17"] = node_spec(
     "C17", ["transfer", "hard", "timers", "result", "msgs.other", "msgs.vote"], "transfer",
-    "Props/C17.v (33 pinned theorems, every node state and every input): a MsgTimeoutNow is queued only by a leader handling MsgAppendResponse or MsgTransferLeader, at most one per step, addressed to the pending transfer target whose matched index equals the leader's last index (every Raft step and every RawNode entry point); while a transfer is pending proposals and conf-change proposals return ProposalDropped with the state unchanged; the transfer timer: the tick at which election_elapsed reaches election_timeout clears the transfer, a leader step leaves (target, elapsed) alone, clears it, or starts a new transfer with elapsed 0, and any interleaving of RawNode calls containing enough ticks ends with no transfer pending (from every state reached from RawNode::new); every reset and the removal of the target from the voters clears it; requests naming an unknown node, a learner, the current target or the leader itself are exact no-ops / cancel only; the forced vote skips pre-vote, carries CAMPAIGN_TRANSFER and bypasses the check-quorum lease; a follower obeys MsgTimeoutNow only if promotable.",
-    "the cluster-level clause (after a completed transfer in a healthy cluster the target leads a higher term holding every committed entry while the old leader follows) is not proved (safety part follows from C02/C03 at P level; liveness is not a theorem); expiry under an unbounded stream of new transfer requests is excluded by hypothesis.",
+    "Props/C17.v (35 pinned theorems, every node state and every input): a MsgTimeoutNow is queued only by a leader handling MsgAppendResponse or MsgTransferLeader, at most one per step, addressed to the pending transfer target whose matched index equals the leader's last index (every Raft step and every RawNode entry point); while a transfer is pending proposals and conf-change proposals return ProposalDropped with the state unchanged; the transfer timer: the tick at which election_elapsed reaches election_timeout clears the transfer, a leader step leaves (target, elapsed) alone, clears it, or starts a new transfer with elapsed 0, and any interleaving of RawNode calls containing enough ticks ends with no transfer pending (from every state reached from RawNode::new); every reset and the removal of the target from the voters clears it; requests naming an unknown node, a learner, the current target or the leader itself are exact no-ops / cancel only; the forced vote skips pre-vote, carries CAMPAIGN_TRANSFER and bypasses the check-quorum lease; a follower obeys MsgTimeoutNow only if promotable.",
+    "of the cluster-level clause the safety half is pinned from the abstract protocol (whoever leads a term - a transfer target included - holds every commit point of earlier terms with identical entries and is the only leader of its term: C17_new_leader_holds_committed, C17_one_leader_per_term; fixed configuration); that the transfer COMPLETES in a healthy cluster (liveness) is not a theorem; expiry under an unbounded stream of new transfer requests is excluded by hypothesis.",
     "DESIGN.md section 7, C17",
     "Theorems: Props/C17.v over M/Raft.v, M/RawNode.v. Tie: pointwise differential, projection transfer+hard+timers+results+vote/other traffic.")
 
